@@ -9,6 +9,7 @@ nodes carry inner pipelines as params.  Item types: 'int', 'mono' (non-decreasin
 non-negative ints; subtype of int), 'optint', 'float', 'pair', 'list', 'any'.
 User functions come from small total, pure families shared by both sides.
 """
+import datetime
 import math
 from array import array
 
@@ -87,6 +88,18 @@ def clipf(lo, hi):
 
 def splitf(kind, d):
     return k_div(d) if kind == 'div' else f_mod(d)
+
+
+T0 = datetime.datetime(2021, 3, 4, 5, 6, 7)
+
+
+def to_dt(i):
+    """int seconds -> datetime (time_split is documented on datetime / timedelta)"""
+    return T0 + datetime.timedelta(seconds=i)
+
+
+def to_td(n):
+    return None if n is None else datetime.timedelta(seconds=n)
 
 
 def closingf(c):
@@ -403,7 +416,7 @@ class _TimeSplit(_Container):
 
     def build(self, n, e):
         return rs.data.time_split(
-            time_mapper=lambda i: i, active_timeout=n[1], inactive_timeout=n[2],
+            time_mapper=to_dt, active_timeout=to_td(n[1]), inactive_timeout=to_td(n[2]),
             closing_mapper=closingf(n[3]), include_closing_item=n[4],
             pipeline=build_pipeline(n[5], e))
 
